@@ -427,9 +427,27 @@ class Gen:
                 forms += ["if", "field"]
         else:
             forms += ["construct"] * 3 + ["if", "call", "block"]
+        if self.has("hmeth") and isinstance(ty, str) and self.emit_ok(ty):
+            forms += ["sel"] * 2
         f = r.choice(forms)
         if f == "leaf":
             return self.leaf(ty, ctx_fixed)
+        if f == "sel":
+            # a registered method: recv.selm(tag, y) returns recv. The receiver is evaluated first, also when it is a
+            # plain variable that the argument then assigns to.
+            vs = [n for n in self.vars_of(ty)]
+            if vs and r.random() < 0.7:
+                n = r.choice(vs)
+                recv = var(n)
+                y = self.expr(ty, d - 1, True) if ty not in FLOAT_TYS else self.fexpr(ty)
+                if n not in self.protected and r.random() < 0.5:
+                    newv = self.expr(ty, max(d - 2, 0), True) if ty not in FLOAT_TYS else self.fleaf(ty)
+                    y = block([{"k": "set", "p": [n], "e": newv}], y)
+            else:
+                # the receiver fixes no type for a literal: literals carry their suffix there
+                recv = self.expr(ty, d - 1, False) if ty not in FLOAT_TYS else self.fexpr(ty)
+                y = self.expr(ty, d - 1, True) if ty not in FLOAT_TYS else self.fexpr(ty)
+            return host("sel", ty, self.tag(), [recv, y])
         if f == "arith":
             op = r.choice(["add", "sub", "mul", "add", "sub", "mul", "div", "rem"])
             if op in ("div", "rem"):
@@ -544,13 +562,27 @@ class Gen:
             n, t = r.choice(cands)
             if f == "lempty":
                 return {"k": "lcall", "m": "is_empty", "r": var(n), "args": []}
-            return {"k": "lcall", "m": "contains", "r": var(n), "args": [self.expr(t[1], d - 1, True)]}
+            return {"k": "lcall", "m": "contains", "r": var(n), "args": [self.recv_reassigning_arg(n, t, d)]}
         if f == "llen":
             cands = [n for (n, t) in self.all_vars() if isinstance(t, list) and t[0] == "list"]
             if not cands:
                 return self.leaf(ty, ctx_fixed)
             return {"k": "lcall", "m": "len", "r": var(r.choice(cands)), "args": []}
         return self.leaf(ty, ctx_fixed)
+
+    def recv_reassigning_arg(self, n, t, d):
+        """argument of a method call on the list variable n; sometimes a block that first assigns another list to n:
+        the receiver is evaluated before the arguments, so the call still goes to the list n held before"""
+        r = self.r
+        arg = self.expr(t[1], d - 1, True)
+        if self.has("exprstmt") and n not in self.protected and self.in_for == 0 and r.random() < 0.3:
+            others = [m for (m, u) in self.all_vars() if u == t and m != n]
+            if others and r.random() < 0.6:
+                new = var(r.choice(others))
+            else:
+                new = {"k": "list", "es": [self.expr(t[1], 0, True) for _ in range(r.randint(1, 2))]}
+            return block([{"k": "set", "p": [n], "e": new}], arg)
+        return arg
 
     def expr0_field(self, ty, d):
         """a field read of type ty (None if no record in play has such a field)"""
@@ -867,7 +899,7 @@ class Gen:
             if not cands:
                 return self.stmt_emit(d)
             n, t = r.choice(cands)
-            return {"k": "lcall", "m": "push", "r": var(n), "args": [self.expr(t[1], d - 1, True)]}
+            return {"k": "lcall", "m": "push", "r": var(n), "args": [self.recv_reassigning_arg(n, t, d)]}
         if f in ("lswap", "lconcat"):
             cands = [(n, t) for (n, t) in self.all_vars() if isinstance(t, list) and t[0] == "list"]
             if not cands:
